@@ -35,9 +35,29 @@ fn roundtrip(e: &Expr) -> Result<(), String> {
         Ok(Err(err)) => Err(format!("rendering {text:?} is not valid syntax: {err}")),
         Ok(Ok(back)) => {
             if same_expr(&back, e) {
-                Ok(())
+                roundtrip_as_rule(e, &text)
             } else {
                 Err(format!("rendering {text:?} parses back to {}", show_expr(&back)))
+            }
+        }
+    }
+}
+
+/// The rendering is valid rule syntax: as the expression of a rule text it parses back to the same tree as well.
+/// (Not applied when a string literal contains a line that starts with `//`: known finding D12 of C14.)
+fn roundtrip_as_rule(e: &Expr, text: &str) -> Result<(), String> {
+    if text.lines().skip(1).any(|l| l.trim_start().starts_with("//")) || text.trim_start().starts_with("//") {
+        return Ok(());
+    }
+    let rule_text = format!("// r\n{text}");
+    match catch(|| Rule::parse(&rule_text)) {
+        Err(p) => Err(format!("rendering {text:?} as the expression of a rule makes Rule::parse panic: {p}")),
+        Ok(Err(err)) => Err(format!("rendering {text:?} is not valid as the expression of a rule: {err}")),
+        Ok(Ok(rule)) => {
+            if same_expr(rule.expr(), e) {
+                Ok(())
+            } else {
+                Err(format!("rendering {text:?} as the expression of a rule parses back to {}", show_expr(rule.expr())))
             }
         }
     }
@@ -131,6 +151,9 @@ fn literal_leaves() -> Vec<Expr> {
         v(Value::String("a\"b".into())),
         v(Value::String("a\\b".into())),
         v(Value::String("line\n\ttab\r".into())),
+        v(Value::String("cr\r\nlf\r\n".into())),
+        v(Value::String("\u{feff}bom\u{200b}zw\u{200d}\u{2060}\u{ad}".into())),
+        v(Value::String("\u{201c}quoted\u{201d} \u{2028}\u{2029}\u{85}".into())),
         v(Value::String("é😀\u{0}".into())),
         v(Value::String(String::new())),
         v(Value::Int(i128::MAX)),
@@ -366,6 +389,11 @@ pub fn run(ctx: &Ctx) {
         chains.push((0..len).fold(a(), |acc, _| Expr::func("f", acc)));
         chains.push((0..len).fold(a(), |acc, _| Expr::Vec(vec![acc])));
         chains.push((0..len).fold(a(), |acc, _| Expr::iif(Expr::value(true), Expr::value(1), acc)));
+        // wide rather than deep: lists / maps of that many entries, one string of that many characters, a call on a wide list
+        chains.push(Expr::Vec((0..len).map(|i| Expr::value(i as i128)).collect()));
+        chains.push(Expr::Map((0..len).map(|i| (format!("k{i}"), Expr::value(format!("v{i}")))).collect()));
+        chains.push(Expr::value("aé\"\\\n".repeat(len)));
+        chains.push(Expr::func("f", Expr::Vec((0..len).map(|i| Expr::add(Expr::reff("a"), Expr::value(i as i128))).collect())));
     }
     ctx.enumerate(
         "long-chains",
